@@ -350,6 +350,11 @@ class Check:
                     return
         self.violations += 1
         replay_obj = dict(replay_obj)
+        for k in ("bnf", "original"):
+            v = replay_obj.get(k)
+            if isinstance(v, Txt) and v.enc:
+                replay_obj["grammar_enc"] = v.enc
+                replay_obj.setdefault("flags", v.flags)
         replay_obj.update({"property": self.pid, "what": what, "seed": seed(), "tier": self.tier})
         p = self.replay(replay_obj)
         tail = "" if found_input else " no-failing-input-found"
@@ -380,6 +385,12 @@ class Check:
         if failed:
             self.violation("proof obligations not discharged: %s (%s)" % (", ".join(failed), what),
                            {"theorems": failed, "detail": self.cov.get("theorems")}, found_input=False)
+
+
+class Txt(str):
+    """grammar text that remembers the encoding the Lean model reads (so that a replay can feed both sides)"""
+    enc = None
+    flags = None
 
 
 def scratch(prefix="vf"):
